@@ -20,6 +20,8 @@ from vt.main import decide
 from translate import kw_tr
 import pegdump
 from props import kw_common as K
+from props import build_common as B
+import mmdump
 
 CORPUS_DIR = os.path.join(core.VERIF, "corpus", "C21")
 ALPHA = ["a", "B", "1", "_", "-", " ", "é", "٣", "\n"]
@@ -263,6 +265,7 @@ def run(chk):
             results[i] = x
 
     per_case = []
+    nbuild, build_budget = [0], (300 if chk.thorough else 50)
     for ci, (case, res) in enumerate(zip(cases, results)):
         d0, d1 = res.get("dump_plain"), res.get("dump_kw")
         if d0 is None:
@@ -272,6 +275,9 @@ def run(chk):
         lets = [("g", pegdump.coq_grammar(d0)), ("k", pegdump.coq_grammar(d1)), ("c", pegdump.coq_config(d0)),
                 ("W", "wordc_of %s" % K.coq_codes(w)), ("D", "digitc_of %s" % K.coq_codes(dg)), ("L", "lower_of %s" % K.coq_pairs(lo))]
         parts, keys = [], []
+        have_mm = res.get("mm_plain") is not None and res.get("mm_kw") is not None
+        if have_mm:
+            lets += [("m0", mmdump.coq_mm(res["mm_plain"])), ("m1", mmdump.coq_mm(res["mm_kw"]))]
         for t in sorted({n_["text"] for n_ in d0["nodes"] if n_["kind"] == "KStr"}):
             for ak in (False, True):
                 parts.append("show_spec (compile_lit W D %s %s %s)" % ("true" if ak else "false", "true" if ic else "false", pegdump.coq_str(t)))
@@ -285,6 +291,13 @@ def run(chk):
                          "show_outcome g (run g c (orc_of %s) false %d %s) ++ \"|\" ++ show_outcome k (run k c (orc_of %s) false %d %s)" % (
                              s, t0, t1, s, t0, K.FUEL, s, t1, K.FUEL, s))
             keys.append((ci, "run", ii, None))
+            # model level, on a sample: parse + Model/Build.v on both tables
+            if have_mm and run_["plain"]["tree"].startswith("P:") and nbuild[0] < build_budget and (case.get("tag", "").startswith("corpus") or (ci + ii) % 2 == 0):
+                nbuild[0] += 1
+                parts.append(K.build_part("g", "c", "m0", run_["plain"], res, text))
+                keys.append((ci, "b0", ii, None))
+                parts.append(K.build_part("k", "c", "m1", run_["kw"], res, text))
+                keys.append((ci, "b1", ii, None))
         if parts:
             per_case.append((lets, parts, keys))
     tdefs, tcases, tn = tie_exprs(chk)
@@ -320,6 +333,9 @@ def run(chk):
         if sd:
             failures.append({"case": ginfo, "what": "autokwd changes the parser model beyond keyword-like literals: " + sd, "tags": []})
             continue
+        # the metamodel tables model construction reads must be the same for both settings
+        if res.get("mm_plain") is not None and res.get("mm_kw") is not None and res["mm_plain"] != res["mm_kw"]:
+            failures.append({"case": ginfo, "what": "autokwd changes what model construction reads off the metamodel (classes / attributes / terminals)", "tags": []})
         kwnodes = set()
         for nid, (a, b) in enumerate(zip(d0["nodes"], d1["nodes"])):
             if a["kind"] != "KStr" or d0["builtin"][nid]:
@@ -381,6 +397,26 @@ def run(chk):
             else:
                 chk.stat("glued keyword: %s" % ("outcomes differ" if K.strip_sup(p["tree"]) != K.strip_sup(k["tree"]) else "outcomes equal"))
             impl_oracle(chk, cinfo, text, ic, kws, p, k, failures, no_glue and K.strip_sup(p["tree"]) == K.strip_sup(k["tree"]))
+            # ---- model level (sample): Coq Build on both tables vs the implementation, and vs each other
+            b0, b1 = mvals.get((ci, "b0", ii, None)), mvals.get((ci, "b1", ii, None))
+            if b0 is not None and b1 is not None:
+                o0, o1 = B.model_outcome(b0), B.model_outcome(b1)
+                if any(o.get("err") == "unsup" or str(o.get("err", "")).startswith("eval:") for o in (o0, o1)):
+                    chk.stat("model level: outside the fragment of Model/Build.v")
+                else:
+                    chk.stat("model level: inputs built in Coq on both tables")
+                    for oo, rr, nm_ in ((o0, p, "plain"), (o1, k, "autokwd")):
+                        if not B.outcomes_agree(oo, rr["model01"]):
+                            disagreements.append({"case": cinfo, "impl": rr["model01"], "model": oo, "what": "Model/Build.v vs model_from_str (%s)" % nm_})
+                    if no_glue and tables_ok:
+                        # C21_same_model_objects instance: identical object graphs (up to case under ignore_case)
+                        same = (o0["ok"] and o1["ok"] and K.shape_rel(o0["value"], o1["value"], not ic)) or (not o0["ok"] and o0 == o1)
+                        if not same:
+                            disagreements.append({"case": cinfo, "impl": None, "model": [o0, o1], "what": "C21_same_model_objects instance contradicted by evaluation"})
+                        i0, i1 = p["model01"], k["model01"]
+                        same_i = (i0["ok"] and i1["ok"] and K.shape_rel(B.strip_impl(i0["value"]), B.strip_impl(i1["value"]), not ic)) or (not i0["ok"] and i0.get("err") == i1.get("err"))
+                        if not same_i:
+                            failures.append({"case": cinfo, "what": "no keyword is glued, but the object graphs differ (positions / locations / values)", "tags": [], "impl": [i0, i1]})
             if nrun % 60 == 7:
                 chk.sample({"grammar": case["grammar"], "opts": case["opts"], "input": text, "plain": p["tree"][:100], "autokwd": k["tree"][:100], "no_glue": no_glue})
     chk.cov["rule"] = ("(a) all literals over {a,B,1,_,-,space,e-acute,arabic-indic digit,newline} up to length 3: kw_like vs Python re on the translated pattern; "
